@@ -15,7 +15,8 @@
 (* iterators: call(iter|keys|values), yield(t,k,tag,v)*, ret.  Per running *)
 (* iterator: atc = keys present at creation, ever = entries <<k,tag,v>>    *)
 (* that were in the map at some moment since creation, touched = keys      *)
-(* whose entry changed since creation, cnt = yields per key.               *)
+(* whose entry changed since creation or on which an update call was open  *)
+(* at some moment of the iteration, cnt = yields per key.                  *)
 (*   yield requires the entry to be in `ever`;                             *)
 (*   return requires every key of atc \ touched to be yielded exactly once.*)
 (* A crash / panic inside the iteration is a rejection (no ret event).     *)
@@ -55,22 +56,31 @@ Notify(p, a, a2) ==
                        !.touched = @ \cup ch]
      ELSE p[u]]
 
+\* keys some other thread's update call is working on right now (called, not yet returned): such a key is
+\* not "untouched" for an iteration that overlaps the call, wherever the update takes effect (a removal from a
+\* tree bin, for one, unlinks the node from the traversal list before lookups stop finding it)
+Busy(p) == {p[u].o.k : u \in {w \in DOMAIN p : p[w].st \in {"called", "lin"} /\ p[w].o.op \in UpdateOps}}
+\* a starting update call touches its key for every running traversal
+Touch(p, e) ==
+  IF e.op \in UpdateOps
+  THEN [u \in DOMAIN p |-> IF p[u].st \in {"iter", "retain"} THEN [p[u] EXCEPT !.touched = @ \cup {e.k}] ELSE p[u]]
+  ELSE p
 Call ==
   /\ IsEv("call")
   /\ LET e == Ev[l] IN
      /\ pend[e.t].st = "idle"
-     /\ pend' = [pend EXCEPT ![e.t] =
+     /\ pend' = [Touch(pend, e) EXCEPT ![e.t] =
           IF e.op \in PerKeyOps THEN [st |-> "called", o |-> e]
           ELSE IF e.op \in RetainOps
                THEN [st |-> "retain", force |-> (e.op = "retain_force"), todo |-> None,
                      atc |-> {k \in DOMAIN abs : Present(abs, k)},
                      ever |-> {Entry(abs, k) : k \in {c \in DOMAIN abs : Present(abs, c)}},
-                     touched |-> {}, cnt |-> [k \in DOMAIN abs |-> 0]]
+                     touched |-> Busy(pend), cnt |-> [k \in DOMAIN abs |-> 0]]
           ELSE IF e.op \in IterOps
                THEN [st |-> "iter", op |-> e.op,
                      atc |-> {k \in DOMAIN abs : Present(abs, k)},
                      ever |-> {Entry(abs, k) : k \in {c \in DOMAIN abs : Present(abs, c)}},
-                     touched |-> {}, cnt |-> [k \in DOMAIN abs |-> 0]]
+                     touched |-> Busy(pend), cnt |-> [k \in DOMAIN abs |-> 0]]
                ELSE [st |-> "other"]]
   /\ l' = l + 1
   /\ UNCHANGED <<tr, abs>>
